@@ -6,6 +6,7 @@ import MagpyVerif.Lemmas.Path
 import MagpyVerif.Lemmas.Tree
 import MagpyVerif.Lemmas.Angax
 import MagpyVerif.Lemmas.OctaCarrier
+import MagpyVerif.Lemmas.History
 namespace MagpyVerif.C09
 open MagpyVerif Gen Spec
 variable {G V : Type}
@@ -216,6 +217,82 @@ example : angaxRotvecs (.scalar (90 : ℝ)) (.str "z") true = .ok (.scalar ⟨0,
 example : angaxRotvecs (.vector [(1 : ℝ), 2]) (.vec ⟨0, 0, 0⟩) false = .error .badUserInput :=
   (angax_rotvec_spec _ _ _).1 _ angax_axis_spec.2.2.2.2.1
 
+
+/-! ## the six `rotate_from_*` entry points (Model/RotFrom.lean) and the full operation set (Model/History.lean) -/
+section entryPoints
+open RotFrom
+variable {α : Type} [Kern.Num α]
+
+/-- C09(j): **every entry point is `rotate` with the rotation object scipy builds from its arguments** — one statement
+quantifying over the entry point (`rotate_from_angax / rotvec / euler / matrix / mrp / quat`, any arguments): a call the
+conversion refuses (magpylib's own axis check for angax; scipy's ValueError for a bad Euler sequence, an angle array whose
+shape does not fit the sequence, a zero quaternion, a matrix without positive determinant) leaves the tree as it is;
+otherwise the history step IS `rotate(rot, anchor, start)` on the same node, and `rot` is a single rotation (scalar input)
+exactly if the argument was ONE parameter set, a stack of `n` (vector input) exactly if it was `n` parameter sets. -/
+theorem rotate_from_any_eq_rotate [Mul G] [Inv G] [One G] [SMul G V] [Add V] [Sub V] [Zero V]
+    (sc : Scipy α G) (t : Node G V) (addr : List Nat) (e : Entry α) (anchor : Option (PathIn V)) (start : Option Int) :
+    t.hstep sc (.rotFrom addr e anchor start) =
+      (match toRot sc e with
+       | .error _ => t
+       | .ok rot => t.step (.rotate addr rot anchor start)) ∧
+    (∀ rot, toRot sc e = .ok rot → e.shape = some (rot.isScalar, rot.lenip)) := by
+  refine ⟨?_, fun rot h => toRot_shape sc e rot h⟩
+  simp only [Node.hstep, rotFromOp]
+  cases toRot sc e <;> rfl
+
+/-- the padding window of a rotation whose input class is (scalar?, number of parameter sets) -/
+def shapeWindow (shape : Bool × Nat) (anchor : Option (PathIn V)) (N : Nat) (start : Option Int) : Window :=
+  window (shape.1 && (match anchor with | some a => a.isScalar | none => true)) N
+    (max (if shape.1 then 0 else shape.2) (match anchor with | some a => a.len0 | none => 0)) start
+
+/-- C09(k): **the `start` semantics is the same for all six entry points**: for every entry point and arguments the
+conversion accepts, on a childless / top-level object the result is the documented one (`rotateAt`, C09(b)) and its
+padding window — entries padded in front, first affected index, new length, end of the affected range — is a function of
+the input class `(scalar?, n)`, of the anchor's class and of `start` alone: whichever entry point the rotation came through,
+scalar input acts from `start` (auto = 0) to the end, vector input of length n on n entries from `start` (auto = append).
+Domain: vector input non-empty (`n ≥ 1`), anchor non-empty. -/
+theorem entry_points_share_start_semantics [Mul G] [One G] [SMul G V] [Add V] [Sub V]
+    (sc : Scipy α G) (e : Entry α) (rot : PathIn G) (h : toRot sc e = .ok rot)
+    (hne : ∀ n, e.shape = some (false, n) → 1 ≤ n)
+    (anchor : Option (PathIn V)) (start : Option Int) (o : Obj G V)
+    (hpos : o.pos ≠ []) (hlen : o.ori.length = o.pos.length) (ha : ∀ a, anchor = some a → a.WF) (i : Nat) :
+    ∃ shape, e.shape = some shape ∧
+      rotWindow rot anchor o.pos.length start = shapeWindow shape anchor o.pos.length start ∧
+      ((applyRotation rot anchor start none o).pos[i]?, (applyRotation rot anchor start none o).ori[i]?) =
+        rotateAt rot anchor start o.pos o.ori i := by
+  have hs := toRot_shape sc e rot h
+  have hr : rot.WF := PathIn.WF_of_shape rot (fun hsc => hne rot.lenip (by rw [hs, hsc]))
+  refine ⟨_, hs, ?_, rotate_refines_spec rot anchor start o hpos hlen hr ha i⟩
+  cases rot with
+  | scalar x => rfl
+  | vector xs => rfl
+
+/-- C09(l) **paths_equal_length_always**: in every state reachable by any finite history over the FULL operation set —
+move / rotate / the six rotate_from_* entry points / position= / orientation= / reset_path / rejected calls / add /
+remove, each addressed to ANY node of ANY collection tree (objects and nested collections) — every object's position and
+orientation paths have equal length ≥ 1 (objects that are added must themselves be in such a state). -/
+theorem paths_equal_length_always [Mul G] [Inv G] [One G] [SMul G V] [Add V] [Sub V] [Zero V]
+    (sc : Scipy α G) (t : Node G V) (ops : List (HOp α G V)) (h : t.All Obj.Inv)
+    (hadd : ∀ a c, HOp.add a c ∈ ops → c.All Obj.Inv) :
+    (ops.foldl (Node.hstep sc) t).All Obj.Inv := by
+  induction ops generalizing t with
+  | nil => exact h
+  | cons op ops ih =>
+    refine ih _ (Node.hstep_inv sc t op h ?_) (fun a c hc => hadd a c (List.mem_cons_of_mem _ hc))
+    intro a c hop
+    exact hadd a c (by rw [hop]; exact List.mem_cons_self)
+
+-- non-vacuity: scipy's shape rule as modelled — one angle for a one-letter sequence and W angles for W letters are ONE
+-- rotation, an (n, W) array is n rotations; a 1-D array of n angles for a one-letter sequence is n rotations (the
+-- documented vector input; since repo fix 96c592d magpylib reshapes it to (n, 1) — scipy 1.18 alone refused it); 'xx' is refused
+example : (Entry.euler (.num (90 : ℝ)) "z" true).shape = some (true, 1) := by decide
+example : (Entry.euler (.arr1 [(90 : ℝ), 0, 0]) "xyz" true).shape = some (true, 1) := by decide
+example : (Entry.euler (.arr2 [[(90 : ℝ), 0], [0, 90]]) "XY" true).shape = some (false, 2) := by decide
+example : (Entry.euler (.arr1 [(90 : ℝ), 180]) "z" true).shape = some (false, 2) := by decide
+example : (Entry.euler (.arr1 [(90 : ℝ)]) "z" true).shape = some (false, 1) := by decide
+example : (Entry.euler (.arr1 [(90 : ℝ), 180]) "xx" true).shape = none := by decide
+example : (Entry.rotvec (.vector [(⟨0, 0, 90⟩ : V3 ℝ)]) true).shape = some (false, 1) := rfl
+end entryPoints
 
 /-! ### on the carrier the driver computes with (AUDIT X1)
 
